@@ -1,4 +1,5 @@
 """C11 - a pattern means the same in every position."""
+import t2
 import t3
 import tgen
 import positions as P
@@ -163,4 +164,10 @@ def run(ck):
                    len(cases), len(nontriv), 0, dist,
                    samples=[dict(position=c.position, invocation="assert_struct!(%s)" % c.text, value=c.value_text, outcome=c.got[0]) for c in cases[:3]],
                    rule="seeded (type, value, pattern) bases x {field, root, tuple element, variant element, slice element, set element, map value, Ok, Err, nested field, tuple index, index, deref, method result, wildcard-struct field, struct-variant field, method result returned by value}; distinct = distinct (invocation, value); non-trivial = inner pattern is not `_`")
+    # the template half (expandPat_subst, C11_template_position_independent, ...) is about the generator model: tie it to the real expansion
+    res = t2.run(ck)
+    mm = t2.record(ck, res, ("body",), "the generated assertion code (the template theorems of C11 speak about it)")
+    if mm and not [v for v in ck.violations if not v["no_input"]]:
+        ck.report("corr:T2-body", "the model of the code generator no longer matches the real expansion (%d inputs differ)" % len(mm),
+                  dict(broken="correspondence T2 (expansion tokens)", theorems=["expandPat_subst", "C11_template_position_independent", "C11_elem_code", "C11_after_operations"], first=mm[:3]), no_input=True)
     ck.assumptions += ["acceptance is decided by rustc itself (the oracle); the model's reference-level calculus is validated against it cell by cell, not proved about rustc"]
